@@ -503,17 +503,22 @@ pub fn decode(a: &[u128]) -> Vec<u128> {
     let mut consumed = 0u128;
     let mut hash_ok = 1u128;
     let mut tree_ok = 1u128;
-    let mut target: Vec<u8> = if driver >= 2 { vec![0u8; claimed as usize] } else { Vec::new() };
+    let mut target: Vec<u8> = if driver == 2 || driver == 3 { vec![0u8; claimed as usize] } else { Vec::new() };
     let mut ob_dg = 0u128;
     let set_err = |e: DecodeError, outcome: &mut (u128, u128), iokind: &mut u128| {
         *outcome = dec_rc(&e);
         *iokind = 1 + kind_code(io::Error::from(e).kind());
     };
     match driver {
-        0 => {
+        0 | 4 => {
             let mut rd = Cursor::new(&stream[..]);
             {
-                let mut it = sync::DecodeResponseIter::new(root, t, &mut rd, &ranges);
+                let mut it = if driver == 0 {
+                    sync::DecodeResponseIter::new(root, t, &mut rd, &ranges)
+                } else {
+                    // the public constructor that takes a caller-provided buffer
+                    sync::DecodeResponseIter::new_with_buffer(root, t, &mut rd, &ranges, bytes::BytesMut::with_capacity(t.block_size().bytes()))
+                };
                 if it.tree() != t {
                     tree_ok = 0;
                 }
@@ -765,10 +770,48 @@ pub fn bao_case(a: &[u128]) -> Vec<u128> {
     vec![slice.len() as u128, digest(&slice) as u128, b(decoded_ok), b(out == slice)]
 }
 
-/// copy: args [kind, seed, size, bs, from_kind, to_kind, driver] -> [rc, to_data_dg, to_loads_dg, from_loads_dg, flipflip_equal]
+/// a node-keyed outboard (as the trait docs suggest: "store the hashes in a database and use the node number as the key")
+pub struct MapOb {
+    pub root: blake3::Hash,
+    pub tree: BaoTree,
+    pub map: std::collections::BTreeMap<u64, (blake3::Hash, blake3::Hash)>,
+}
+impl sync::Outboard for MapOb {
+    fn root(&self) -> blake3::Hash {
+        self.root
+    }
+    fn tree(&self) -> BaoTree {
+        self.tree
+    }
+    fn load(&self, node: bao_tree::TreeNode) -> io::Result<Option<(blake3::Hash, blake3::Hash)>> {
+        Ok(self.map.get(&nv(node)).copied())
+    }
+}
+
+/// copy: args [kind, seed, size, bs, from_kind, to_kind, driver, removed slots...] -> [rc, to_data_dg, to_loads_dg, from_loads_dg, flipflip_equal]
+///   from_kind 5: a node-keyed (map) outboard from which the pairs at the given pre-order slots were removed (sync copy only)
 pub fn copy_case(a: &[u128]) -> Vec<u128> {
     let data = gen_data(a[0] as u64, a[1] as u64, a[2] as usize);
     let bs = a[3] as u8;
+    if a[4] == 5 {
+        use sync::Outboard;
+        let full = Ob::intact(0, &data, bs);
+        let t = full.tree();
+        let mut map = std::collections::BTreeMap::new();
+        let mut slot = 0u128;
+        for n in t.pre_order_nodes_iter() {
+            if let Ok(Some(p)) = with_ob!(&full, o => o.load(n)) {
+                if !a[7..].contains(&slot) {
+                    map.insert(nv(n), p);
+                }
+                slot += 1;
+            }
+        }
+        let from = MapOb { root: full.root(), tree: t, map };
+        let mut to = Ob::new(a[5], full.root(), t, vec![0u8; t.outboard_size() as usize]);
+        let r = with_ob!(&mut to, o => sync::copy(&from, o));
+        return vec![io_rc(&r), digest(&to.data()) as u128, loads_digest(&to), 0, 1];
+    }
     let from = Ob::intact(a[4], &data, bs);
     let t = from.tree();
     let mut to = Ob::new(a[5], from.root(), t, vec![0u8; t.outboard_size() as usize]);
